@@ -23,6 +23,18 @@ pub const WELL_KNOWN: &[(u16, &str)] = &[
     (1044, "nb-NO"), (1045, "pl-PL"), (1029, "cs-CZ"), (1038, "hu-HU"),
     (1032, "el-GR"), (1055, "tr-TR"), (1037, "he-IL"), (1025, "ar-SA"),
     (1054, "th-TH"), (1058, "uk-UA"),
+    // regional variants whose sublanguage is not the first one, and further
+    // first-sublanguage entries (same reference); only tags the library's
+    // table contains at all: the property lets an identifier the table does
+    // not know (zh-CN, zh-TW, nn-NO, hr-HR, ...) fall back to the bare language, and
+    // none whose assignment the reference itself splits by sort order (es-ES)
+    (2108, "ga-IE"), (2060, "fr-BE"), (4108, "fr-CH"), (3079, "de-AT"), (2064, "it-CH"),
+    (2067, "nl-BE"), (2077, "sv-FI"), (3076, "zh-HK"), (4100, "zh-SG"),
+    (6153, "en-IE"), (5129, "en-NZ"), (7177, "en-ZA"), (16393, "en-IN"), (3073, "ar-EG"),
+    (1048, "ro-RO"), (1026, "bg-BG"), (1051, "sk-SK"), (1060, "sl-SI"), (1061, "et-EE"),
+    (1062, "lv-LV"), (1063, "lt-LT"), (1081, "hi-IN"), (1066, "vi-VN"), (1027, "ca-ES"), (1069, "eu-ES"),
+    (1039, "is-IS"), (1078, "af-ZA"), (1106, "cy-GB"), (1082, "mt-MT"), (1134, "lb-LU"), (1153, "mi-NZ"),
+    (1086, "ms-MY"), (1065, "fa-IR"), (1089, "sw-KE"),
     // bare language identifiers (primary language, neutral sublanguage)
     (9, "en"), (12, "fr"), (7, "de"), (17, "ja"), (10, "es"), (22, "pt"),
 ];
